@@ -18,7 +18,7 @@ from vlib import fmt_list, parse_list
 CU_MAX = [0xFF, 0xFFFF, 0xFFFFFFFF, 0xFFFFFFFF]
 WS = [32, 9, 10, 13]
 TABLES = (("Tables_json", "gentables_json.cpp"), ("Tables_digit", "gentables_digit.cpp"))
-PATCHES = "D2 D11 D15 D16 D61 D62 (json) + D28 D43 D44 D45 D46 (digit)"
+PATCHES = "D2 D11 D15 D16 D61 D62 D63 (json) + D28 D43 D44 D45 D46 (digit)"
 
 
 def to_utf(w, cp):
@@ -263,11 +263,12 @@ def gen_key(rng):
 
 def gen_cval(rng, depth, top=False):
     r = rng.random()
-    if top or (depth > 0 and r < 0.45):
+    if top or (depth > 0 and r < 0.55):
+        sizes = [0, 1, 1, 2, 2, 3, 4] if not top else [0, 1, 2, 2, 3, 3, 4, 5]
         if rng.random() < 0.5:
-            n = rng.choice([0, 0, 1, 2, 3, 4])
+            n = rng.choice(sizes)
             return ("arr", gen_ws(rng), [(gen_ws(rng), gen_cval(rng, depth - 1), gen_ws(rng)) for _ in range(n)])
-        n = rng.choice([0, 0, 1, 2, 3, 4])
+        n = rng.choice(sizes)
         return ("obj", gen_ws(rng), [(gen_ws(rng), gen_key(rng), gen_ws(rng), gen_ws(rng), gen_cval(rng, depth - 1), gen_ws(rng)) for _ in range(n)])
     if r < 0.65:
         return ("str", [gen_cchar(rng) for _ in range(rng.choice([0, 1, 2, 3, 5, 8]))])
@@ -279,7 +280,7 @@ def gen_cval(rng, depth, top=False):
 def gen_doc(rng, w, maxlen=200, maxdepth=8, outer_ws=True):
     """a generated container document: (units, tree token, Printed)"""
     while True:
-        v = gen_cval(rng, rng.randrange(0, maxdepth + 1) if maxdepth else 0, top=True)
+        v = gen_cval(rng, rng.choice([1, 2, 2, 3, 3, 4, 5, 6, 8]) if maxdepth else 0, top=True)
         out = Printed()
         cprint(w, v, out)
         if len(out.u) <= maxlen and all(x <= CU_MAX[w] for x in out.u):
@@ -404,7 +405,7 @@ def gen_tree(rng, w, depth, reals, top=False):
             return "P;" + t
         return t
     if rng.random() < 0.1:
-        return "P;" + gen_tree(rng, w, 0, reals)
+        return "P;X" if rng.random() < 0.3 else "P;" + gen_tree(rng, w, 0, reals)
     if r < 0.6:
         return "S" + fmt_list(gen_units_string(rng, w))
     if r < 0.85:
